@@ -228,11 +228,14 @@ TypeOK == /\ chan \in Channels
 (* The property: whatever a hop delivers is the id the chain started with. *)
 Unchanged == (at # "rejected" /\ hops > 0) => (Carried = origin /\ origin # None)
 
-(* Wire level: the same, up to the optional white space HTTP strips.  With *)
-(* HTTPTrim = NoTrim this is Unchanged.  With OWSTrim it is the weaker      *)
-(* statement the real stacks satisfy; the strict Unchanged is violated     *)
-(* (MC_prop_wire_strict.cfg shows TLC's counterexample: "tenant-a " placed *)
-(* in a context arrives as "tenant-a" after one HTTP hop).                 *)
+(* Wire level.  The PROPERTY is the strict Unchanged with HTTPTrim = NoTrim *)
+(* (MC_prop_wire.cfg): the replay holds the real stacks against it.  The   *)
+(* real net/http stack strips blanks around a header value (open finding   *)
+(* F11); OWSTrim is the as-is model of that behaviour: under it only the   *)
+(* weaker UnchangedUpToOWS holds (MC_prop_wire_asis.cfg) and the strict    *)
+(* Unchanged is refuted (MC_prop_wire_strict.cfg, negative control:        *)
+(* "tenant-a " placed in a context arrives as "tenant-a" after one HTTP    *)
+(* hop).                                                                   *)
 UnchangedUpToOWS == (at # "rejected" /\ hops > 0) =>
                         /\ origin # None
                         /\ Carried \in {origin, HTTPTrim[origin]}
